@@ -125,7 +125,7 @@ func (vc *VC) execFunction(fn *ssa.Function, args []Val, freeVars []Val, st *Sta
 		}
 		if li := fr.loops[b]; li != nil {
 			cur = vc.enterLoop(fr, li, cur)
-			loopEntry[b] = cur
+			loopEntry[b] = cur.clone()
 		}
 		var outs []inEdge // successor states in order of b.Succs
 		for _, ins := range b.Instrs {
@@ -367,7 +367,14 @@ func (vc *VC) store(fr *frame, st *State, ptr Val, t types.Type, v Val, pos toke
 			if !ok {
 				old = vc.zeroVal(st, a.Cell.Type().(*types.Pointer).Elem())
 			}
-			st.cells[k] = scalar(p.App("arrset", SInt, vc.asInt(old), a.Index, vc.asInt(v)))
+			ns := p.App("arrset", SInt, vc.asInt(old), a.Index, vc.asInt(v))
+			vc.assumeGlobal(p.Eq(p.App("arrsel", SInt, ns, a.Index), vc.asInt(v)))
+			if at, ok := a.Cell.Type().Underlying().(*types.Pointer).Elem().Underlying().(*types.Array); ok && at.Len() <= 8 {
+				for j := int64(0); j < at.Len(); j++ {
+					vc.assumeGlobal(p.Implies(p.Ne(a.Index, p.Int(j)), p.Eq(p.App("arrsel", SInt, ns, p.Int(j)), p.App("arrsel", SInt, vc.asInt(old), p.Int(j)))))
+				}
+			}
+			st.cells[k] = scalar(ns)
 			return
 		}
 		st.cells[k] = v
@@ -794,7 +801,25 @@ func (vc *VC) execSlice(fr *frame, st *State, x *ssa.Slice) Val {
 		arr := vc.newRef(st, "arrview")
 		k := elemMapKey(at.Elem())
 		m := vc.heapGet(st, k, SArrIAI)
-		vc.heapSet(st, k, p.Store(m, arr, p.App("arrelems", SArrII, content)))
+		elems := p.App("arrelems", SArrII, content)
+		if !vc.typed[elems] {
+			vc.typed[elems] = true
+			if at.Len() <= 8 {
+				for j := int64(0); j < at.Len(); j++ {
+					vc.assumeGlobal(p.Eq(p.Select(elems, p.Int(j)), p.App("arrsel", SInt, content, p.Int(j))))
+				}
+			} else {
+				vc.qSeq++
+				j := p.Var(fmt.Sprintf("j?%d", vc.qSeq), SInt)
+				vc.assumeGlobal(p.Forall([]*Term{j}, p.Eq(p.Select(elems, j), p.App("arrsel", SInt, content, j))))
+			}
+			// an array value is determined by its elements (left inverse of the element view)
+			vc.assumeGlobal(p.Eq(p.App("arrofelems", SInt, elems), content))
+			if b, isB := at.Elem().Underlying().(*types.Basic); isB && b.Kind() == types.Uint8 {
+				vc.assumeGlobal(p.Eq(p.App("arrofbytes$"+typeKey(bt.Elem()), SInt, p.App("bcontent", SInt, elems, p.Int(0), p.Int(at.Len()))), content))
+			}
+		}
+		vc.heapSet(st, k, p.Store(m, arr, elems))
 		v := Val{K: VSlice, Arr: arr, Off: lo, Len: p.Sub(hi, lo), Cap: p.Sub(n, lo), Org: org}
 		return v
 	}
@@ -1297,4 +1322,17 @@ func (vc *VC) execNext(fr *frame, st *State, x *ssa.Next) Val {
 	kv := scalar(k)
 	vc.assumeType(st, kv, ri.mt.Key())
 	return Val{K: VStruct, Fs: []Val{scalar(ok), kv, val}}
+}
+
+// arrayBytes is the content of a[:] for an array value a (content id) of byte-array type at.
+func (vc *VC) arrayBytes(content *Term, at *types.Array, t types.Type) *Term {
+	p := vc.P
+	elems := p.App("arrelems", SArrII, content)
+	c := p.App("bcontent", SInt, elems, p.Int(0), p.Int(at.Len()))
+	if !vc.typed[c] {
+		vc.typed[c] = true
+		vc.assumeGlobal(p.Eq(p.App("arrofbytes$"+typeKey(t), SInt, c), content))
+		vc.assumeGlobal(p.Eq(p.App("strlen", SInt, c), p.Int(at.Len())))
+	}
+	return c
 }
